@@ -398,7 +398,7 @@ def check_cursors(ctx, F, tag, prefix="C08.R4"):
                 ctx.ob(prefix + ".cursor-provenance", "%s|OneIter#%d%s" % (b.name, n, tag), loc(st["sp"]), okl and okn, "term-provenance",
                        "limit = (T::count_ones(parent), parent.len()): %s; next = %s: %s" % (okl, how, okn))
     ctx.count("one-iter-aggregates" + tag, n)
-    ctx.floor("one-iter-aggregates" + tag, 6)
+    ctx.floor("one-iter-aggregates" + tag, 3)
     # next/limit stored only inside the iterator's own impls
     bad = []
     for b in F.all_bodies():
@@ -420,7 +420,7 @@ def check_cursors(ctx, F, tag, prefix="C08.R4"):
                     m(Call(lambda n_: n_.endswith("::len"), ANY), lim[4][1]) and any(self_path_any(x, "low") for x in subterms(lim[4][1]))
                 ctx.ob(prefix + ".cursor-provenance", "%s|sparse::OneIter#%d%s" % (b.name, k, tag), loc(st["sp"]), ok, "term-provenance", "limit = Pos{high.len(), low.len()}: %s" % ok, nontrivial=False)
     ctx.count("sparse-one-iter-aggregates" + tag, k)
-    ctx.floor("sparse-one-iter-aggregates" + tag, 5)
+    ctx.floor("sparse-one-iter-aggregates" + tag, 2)
 
 
 def self_path_any(x, name):
